@@ -4,7 +4,6 @@
 package repl
 
 import (
-	"sync"
 	"bytes"
 	"context"
 	"encoding/binary"
@@ -15,7 +14,9 @@ import (
 	"os"
 	"os/exec"
 	"path/filepath"
+	"sort"
 	"strings"
+	"sync"
 	"time"
 
 	"github.com/lindb/common/pkg/ltoml"
@@ -54,6 +55,7 @@ const (
 	familyTime = int64(946684800000) // 2000-01-01
 	leaderID   = 1
 	followerID = 2
+	thirdID    = 3 // a second follower (replica factor 3): absent for the whole run, or alive and undisturbed
 )
 
 func (H) Gen(prop string, rng *rand.Rand, tier string) *core.Plan {
@@ -108,6 +110,24 @@ func (H) Gen(prop string, rng *rand.Rand, tier string) *core.Plan {
 			p.Ops = append(p.Ops, core.Op{K: "online_dup"})
 		}
 	}
+	// a third replica of the shard: the leader's one replica loop then serves two remote replicators (and the leader's
+	// log is collected by the minimum over three groups). 1 = its node is down for the whole run (the other follower
+	// must not be held up by it), 2 = alive and left alone apart from the transport faults (its log must be the same
+	// gap-free copy; histories without a leader tail loss, whose exemptions are kept per follower 2 only)
+	p.Cfg["third"] = []int{0, 0, 1, 2}[rng.Intn(4)]
+	if p.Cfg["third"] == 2 {
+		ops := p.Ops[:0]
+		for _, op := range p.Ops {
+			if op.K == "snap_l" {
+				continue
+			}
+			if op.K == "restart_l" && op.A == 2 {
+				op.A = 1
+			}
+			ops = append(ops, op)
+		}
+		p.Ops = ops
+	}
 	return p
 }
 
@@ -126,7 +146,7 @@ func (e *stubEngine) GetShard(_ string, id models.ShardID) (tsdb.Shard, bool) { 
 
 type stubDB struct{ tsdb.Database }
 
-func (d *stubDB) Name() string                       { return dbName }
+func (d *stubDB) Name() string                      { return dbName }
 func (d *stubDB) GetOption() *option.DatabaseOption { return &option.DatabaseOption{} }
 
 type stubShard struct {
@@ -146,48 +166,52 @@ type stubFamily struct{ tsdb.DataFamily }
 func (f *stubFamily) TimeRange() timeutil.TimeRange {
 	return timeutil.TimeRange{Start: familyTime, End: familyTime + 1000*3600*24*365*100}
 }
-func (f *stubFamily) FamilyTime() int64                       { return familyTime }
-func (f *stubFamily) AckSequence(int32, func(int64))          {}
-func (f *stubFamily) ValidateSequence(int32, int64) bool      { return true }
-func (f *stubFamily) CommitSequence(int32, int64)             {}
-func (f *stubFamily) WriteRows([]*metric.StorageRow) error    { return nil }
-func (f *stubFamily) Retain()                                 {}
-func (f *stubFamily) Release()                                {}
+func (f *stubFamily) FamilyTime() int64                    { return familyTime }
+func (f *stubFamily) AckSequence(int32, func(int64))       {}
+func (f *stubFamily) ValidateSequence(int32, int64) bool   { return true }
+func (f *stubFamily) CommitSequence(int32, int64)          {}
+func (f *stubFamily) WriteRows([]*metric.StorageRow) error { return nil }
+func (f *stubFamily) Retain()                              {}
+func (f *stubFamily) Release()                             {}
 
 // ---- simulated cluster ---------------------------------------------------------
 
 type node struct {
-	id      int
-	dir     string
-	inc     int
-	alive   bool
-	walMgr  replica.WriteAheadLogManager
-	handler *storagerpc.ReplicaHandler
-	cancel  context.CancelFunc
-	part    replica.Partition // leader only: its own partition
+	id       int
+	dir      string
+	inc      int
+	alive    bool
+	walMgr   replica.WriteAheadLogManager
+	handler  *storagerpc.ReplicaHandler
+	cancel   context.CancelFunc
+	part     replica.Partition // leader only: its own partition
+	stopping bool              // graceful shutdown has begun: the rpc server is already stopped (app/storage runtime.Stop)
 }
 
 type cluster struct {
-	c        *core.RunCtx
-	sim      *simrt.Sim
-	nodes    map[int]*node
-	live     map[int]bool
-	sm       *stateMgr // the state manager of the leader's current incarnation
-	faultPM  int
-	noFaults bool
-	streams  int
-	streamTasks map[int]bool // tasks that run a follower stream handler
-	flapping    bool         // the follower's node is between offline and online of a flap
+	c           *core.RunCtx
+	sim         *simrt.Sim
+	nodes       map[int]*node
+	live        map[int]bool
+	sm          *stateMgr // the state manager of the leader's current incarnation
+	faultPM     int
+	noFaults    bool
+	streams     int
+	streamTasks map[int]bool   // tasks that run a follower stream handler
+	flapping    bool           // the follower's node is between offline and online of a flap
 	putStarted  map[int64]bool // positions that were offered to a handler of the follower (it may have appended them)
 
 	// ledger
-	written  map[int64][]byte // leader sequence -> bytes as appended (of the leader's current log history)
-	nextMsg  int64
-	lostFrom int64 // leader positions >= lostFrom were destroyed by a tail loss (exempt until re-established)
-	prevAck  int64
-	resetHW  bool
-	appendedBy map[int64]int // follower position -> incarnation of the leader whose stream delivered it
-	tailLostInc int        // leader incarnation that started from a restored (older) log image, 0 = none
+	written     map[int64][]byte // leader sequence -> bytes as appended (of the leader's current log history)
+	nextMsg     int64
+	lostFrom    int64 // leader positions >= lostFrom were destroyed by a tail loss (exempt until re-established)
+	prevAck     int64
+	resetHW     bool
+	appendedBy  map[int64]int            // follower position -> incarnation of the leader whose stream delivered it
+	offered     map[int64]map[int][]byte // follower position -> leader incarnation -> the bytes a stream of that incarnation handed to a handler
+	tailLostInc int                      // leader incarnation that started from a restored (older) log image, 0 = none
+	third       int                      // 0 = two replicas, 1 = third replica's node never up, 2 = third replica alive
+	allStreams  []*stream
 }
 
 func (cl *cluster) chance(kind string) bool {
@@ -304,7 +328,7 @@ var errUnavailable = errors.New("rpc error: code = Unavailable desc = simulated 
 func (cl *cluster) callOn(target int, fn func()) error {
 	simrt.Sleep(time.Millisecond) // network latency (also lets simulated time advance during retry loops)
 	n := cl.nodes[target]
-	if n == nil || !n.alive {
+	if n == nil || !n.alive || n.stopping {
 		return errUnavailable
 	}
 	inc := n.inc
@@ -359,29 +383,30 @@ func (c *simClient) Reset(ctx context.Context, in *protoReplicaV1.ResetIndexRequ
 
 // stream pair
 type stream struct {
-	cl       *cluster
-	id       int
-	target   *node
-	inc      int
-	ctx      context.Context
-	toSrv    []*protoReplicaV1.ReplicaRequest
-	toCli    []*protoReplicaV1.ReplicaResponse
+	cl        *cluster
+	id        int
+	target    *node
+	inc       int
+	ctx       context.Context
+	toSrv     []*protoReplicaV1.ReplicaRequest
+	toCli     []*protoReplicaV1.ReplicaResponse
 	leaderInc int  // incarnation of the leader that opened the stream
-	broken   bool // client side gave up / transport broke
-	closed   bool // client CloseSend
-	srvDone  bool
+	broken    bool // client side gave up / transport broke
+	closed    bool // client CloseSend
+	srvDone   bool
 }
 
 func (c *simClient) Replica(ctx context.Context, _ ...grpc.CallOption) (protoReplicaV1.ReplicaService_ReplicaClient, error) {
 	cl := c.cl
 	simrt.Sleep(time.Millisecond)
 	n := cl.nodes[c.target]
-	if n == nil || !n.alive || cl.chance("stream-open-fail") {
+	if n == nil || !n.alive || n.stopping || cl.chance("stream-open-fail") {
 		return nil, errUnavailable
 	}
 	md, _ := metadata.FromOutgoingContext(ctx)
 	cl.streams++
 	st := &stream{cl: cl, id: cl.streams, target: n, inc: n.inc, leaderInc: cl.nodes[leaderID].inc, ctx: metadata.NewIncomingContext(context.Background(), md)}
+	cl.allStreams = append(cl.allStreams, st)
 	cl.sim.SpawnIn(n.inc, fmt.Sprintf("stream%d", st.id), func() {
 		cl.streamTasks[cl.sim.CurTask()] = true
 		err := n.handler.Replica(&srvStream{st: st})
@@ -453,7 +478,13 @@ func (s *srvStream) Recv() (*protoReplicaV1.ReplicaRequest, error) {
 		st.toSrv = st.toSrv[1:]
 		// recorded when the request reaches the handler: a follower that dies inside the append or before it
 		// answers may still have made the message durable
-		st.cl.putStarted[r.ReplicaIndex] = true
+		if st.target.id == followerID {
+			st.cl.putStarted[r.ReplicaIndex] = true
+			if st.cl.offered[r.ReplicaIndex] == nil {
+				st.cl.offered[r.ReplicaIndex] = map[int][]byte{}
+			}
+			st.cl.offered[r.ReplicaIndex][st.leaderInc] = r.Record
+		}
 		if st.broken && !st.cl.noFaults {
 			// stale delivery: processed after a tape-chosen delay although the client gave up
 			st.cl.sim.Fault("stale-delivery")
@@ -470,7 +501,7 @@ func (s *srvStream) Recv() (*protoReplicaV1.ReplicaRequest, error) {
 func (s *srvStream) Send(m *protoReplicaV1.ReplicaResponse) error {
 	st := s.st
 	st.cl.sim.Event("stream %d replica idx=%d -> follower answers %d %s (client gone: %v)", st.id, m.ReplicaIndex, m.AckIndex, m.Err, st.broken)
-	if m.AckIndex == m.ReplicaIndex && m.Err == "" {
+	if m.AckIndex == m.ReplicaIndex && m.Err == "" && st.target.id == followerID {
 		st.cl.appendedBy[m.ReplicaIndex] = st.leaderInc
 	}
 	if st.broken {
@@ -490,6 +521,7 @@ func (cl *cluster) startNode(id int) error {
 	}
 	n.inc = cl.sim.NewIncarnation()
 	n.alive = true
+	n.stopping = false
 	sm := newStateMgr(cl)
 	if id == leaderID {
 		// (the watchers of the previous incarnation's replicators died with its state manager)
@@ -515,7 +547,11 @@ func (cl *cluster) startNode(id int) error {
 				startErr = err
 			} else {
 				n.part = p
-				if err := p.BuildReplicaForLeader(leaderID, []models.NodeID{leaderID, followerID}); err != nil {
+				replicas := []models.NodeID{leaderID, followerID}
+				if cl.third != 0 {
+					replicas = append(replicas, thirdID)
+				}
+				if err := p.BuildReplicaForLeader(leaderID, replicas); err != nil {
 					startErr = err
 				}
 			}
@@ -533,6 +569,14 @@ func (cl *cluster) stopNode(id int, clean bool) {
 		return
 	}
 	if clean {
+		// lindb's storage runtime stops its rpc server before the write-ahead log manager: no new call or stream
+		// reaches a node that is shutting down, open streams are closed (their handlers may still be inside a request)
+		n.stopping = true
+		for _, st := range cl.allStreams {
+			if st.target == n && st.inc == n.inc {
+				st.broken = true
+			}
+		}
 		done := false
 		cl.sim.SpawnIn(n.inc, "shutdown", func() {
 			// the process is exiting: Close unmaps the log pages under loops that Stop does not
@@ -542,7 +586,15 @@ func (cl *cluster) stopNode(id int, clean bool) {
 			_ = n.walMgr.Close()
 			done = true
 		})
-		cl.sim.Await(func() bool { return done })
+		// a graceful stop must come to an end whatever state the peers are in (a follower that is down, a stream
+		// that is broken): 120 simulated seconds, which only pass while every task is blocked
+		deadline := cl.sim.Elapsed() + 120*time.Second
+		for !done && cl.sim.Elapsed() < deadline {
+			simrt.Sleep(10 * time.Millisecond)
+		}
+		if !done {
+			cl.c.Violate("C08/graceful-stop-hangs", "node %d: the write-ahead log manager did not stop within 120 simulated seconds (live nodes %v): %s", id, cl.live, cl.sim.TaskDump())
+		}
 	}
 	n.alive = false
 	if n.cancel != nil {
@@ -589,8 +641,10 @@ func partDir(nodeDir string) string {
 	return filepath.Join(nodeDir, "wal", dbName, "0", commontimeutil.FormatTimestamp(familyTime, commontimeutil.DataTimeFormat4), fmt.Sprint(leaderID))
 }
 
-func (cl *cluster) followerLog() queue.FanOutQueue {
-	f := cl.nodes[followerID]
+func (cl *cluster) followerLog() queue.FanOutQueue { return cl.logOf(followerID) }
+
+func (cl *cluster) logOf(id int) queue.FanOutQueue {
+	f := cl.nodes[id]
 	if f == nil || !f.alive || f.walMgr == nil {
 		return nil
 	}
@@ -620,10 +674,50 @@ func msgBytes(id int64, size int) []byte {
 }
 
 // check: the invariants of the statement that can be evaluated at any quiescent point of the main task.
+// staleFromDeadLeader: the bytes the follower holds at position i are the ones a stream of a leader incarnation
+// that died before its log tail was lost handed to a handler (which appended them, possibly without having answered yet).
+func (cl *cluster) staleFromDeadLeader(i int64, data []byte) (int, bool) {
+	if cl.tailLostInc == 0 {
+		return 0, false
+	}
+	if by, ok := cl.appendedBy[i]; ok && by < cl.tailLostInc {
+		return by, true
+	}
+	incs := make([]int, 0, len(cl.offered[i]))
+	for inc := range cl.offered[i] {
+		incs = append(incs, inc)
+	}
+	sort.Ints(incs)
+	for _, inc := range incs {
+		if inc < cl.tailLostInc && bytes.Equal(cl.offered[i][inc], data) {
+			return inc, true
+		}
+	}
+	return 0, false
+}
+
 func (cl *cluster) check(when string) {
 	c := cl.c
 	c.Oracle()
 	l := cl.nodes[leaderID]
+	if cl.third == 2 {
+		// the undisturbed second follower: no holes, and at every position the message the leader stored there
+		if tq := cl.logOf(thirdID); tq != nil {
+			q := tq.Queue()
+			app, ack := q.AppendedSeq(), q.AcknowledgedSeq()
+			for i := ack + 1; i <= app; i++ {
+				data, err := q.Get(i)
+				if err != nil {
+					c.Violate("C08/follower-log-hole", "%s: position %d in (%d, %d] of the second follower is not readable: %v", when, i, ack, app, err)
+					return
+				}
+				if w, ok := cl.written[i]; !ok || !bytes.Equal(w, data) {
+					c.Violate("C08/bytes-differ", "%s: position %d of the second follower does not hold the message the leader stored at %d (known to the ledger: %v)", when, i, i, ok)
+					return
+				}
+			}
+		}
+	}
 	fq := cl.followerLog()
 	if fq == nil {
 		return
@@ -639,13 +733,17 @@ func (cl *cluster) check(when string) {
 	for i := fAck + 1; i <= fApp; i++ {
 		data, err := fQ.Get(i)
 		if err != nil {
+			if os.Getenv("VERIF_DEBUG_LS") != "" {
+				out, _ := exec.Command("bash", "-c", "cd "+cl.nodes[followerID].dir+" && find . -type f | xargs ls -la; for f in $(find . -name '0.bat' -path '*meta*'); do echo $f; xxd $f | head -3; done").CombinedOutput()
+				cl.sim.Event("DEBUG follower dir:\n%s", out)
+			}
 			c.Violate("C08/follower-log-hole", "%s: follower position %d in (%d, %d] is not readable: %v", when, i, fAck, fApp, err)
 			return
 		}
 		if lQ != nil && i > lAck && i <= lApp && i < cl.lostFrom {
 			ld, err := lQ.Get(i)
 			if err == nil && !bytes.Equal(ld, data) {
-				if by, ok := cl.appendedBy[i]; ok && cl.tailLostInc != 0 && by < cl.tailLostInc {
+				if by, ok := cl.staleFromDeadLeader(i, data); ok {
 					// delivered by a stream of a leader incarnation that died before its log tail was lost
 					c.Violate("C08/bytes-differ/stale-delivery-from-dead-leader-after-tail-loss", "%s: position %d on the follower was appended by the still running handler of a stream opened by leader incarnation %d; the leader restarted from an older image of its log (incarnation %d) and reused the index for a new message", when, i, by, cl.tailLostInc)
 					return
@@ -655,7 +753,7 @@ func (cl *cluster) check(when string) {
 			}
 		}
 		if w, ok := cl.written[i]; ok && i < cl.lostFrom && !bytes.Equal(w, data) {
-			if by, ok := cl.appendedBy[i]; ok && cl.tailLostInc != 0 && by < cl.tailLostInc {
+			if by, ok := cl.staleFromDeadLeader(i, data); ok {
 				// the same history seen through the ledger (the leader has acknowledged or collected the position)
 				c.Violate("C08/bytes-differ/stale-delivery-from-dead-leader-after-tail-loss", "%s: position %d on the follower was appended by the still running handler of a stream opened by leader incarnation %d; the leader restarted from an older image of its log (incarnation %d) and reused the index for a new message", when, i, by, cl.tailLostInc)
 				return
@@ -669,7 +767,7 @@ func (cl *cluster) check(when string) {
 func (H) Run(c *core.RunCtx) {
 	sim := c.Sim
 	cl := &cluster{c: c, sim: sim, nodes: map[int]*node{}, live: map[int]bool{leaderID: true, followerID: true},
-		appendedBy: map[int64]int{}, faultPM: c.Plan.C("fault_pm", 0), written: map[int64][]byte{}, lostFrom: 1 << 60, prevAck: -1, streamTasks: map[int]bool{}, putStarted: map[int64]bool{}}
+		third: c.Plan.C("third", 0), appendedBy: map[int64]int{}, offered: map[int64]map[int][]byte{}, faultPM: c.Plan.C("fault_pm", 0), written: map[int64][]byte{}, lostFrom: 1 << 60, prevAck: -1, streamTasks: map[int]bool{}, putStarted: map[int64]bool{}}
 	{
 		hot := float64(c.Plan.C("hot_pm", 0)) / 1000
 		main := sim.CurTask()
@@ -706,6 +804,17 @@ func (H) Run(c *core.RunCtx) {
 		c.Anomaly("start follower: %v", err)
 		return
 	}
+	if cl.third == 1 {
+		sim.Fault("third-replica-down")
+	}
+	if cl.third == 2 {
+		sim.Fault("third-replica-alive")
+		cl.live[thirdID] = true
+		if err := cl.startNode(thirdID); err != nil {
+			c.Anomaly("start second follower: %v", err)
+			return
+		}
+	}
 	if err := cl.startNode(leaderID); err != nil {
 		c.Anomaly("start leader: %v", err)
 		return
@@ -717,7 +826,22 @@ func (H) Run(c *core.RunCtx) {
 	// hw: the highest position the follower has ever appended in the current history of the
 	// leader's log (a later loss of the follower's log does not make earlier acknowledgements wrong).
 	hw := int64(-1)
+	tMeta := filepath.Join(partDir(filepath.Join(c.Dir, fmt.Sprintf("node%d", thirdID))), "meta", "0.bat")
+	tGroup := filepath.Join(partDir(cl.nodes[leaderID].dir), "cg", fmt.Sprint(thirdID), "0.bat")
+	hw3, prevAck3 := int64(-1), int64(-1)
 	sim.OnStep = func() {
+		if cl.third == 2 {
+			// the same rule for the second follower (its log is never lost, the leader's never cut)
+			if app, _, ok := readPos(tMeta); ok && app > hw3 {
+				hw3 = app
+			}
+			if _, ack, ok := readPos(tGroup); ok && ack != prevAck3 {
+				if ack > prevAck3 && ack > hw3 {
+					c.Violate("C08/acked-beyond-follower-append", "leader's acknowledged position for the second follower moved %d -> %d but that follower never appended beyond %d", prevAck3, ack, hw3)
+				}
+				prevAck3 = ack
+			}
+		}
 		if fApp, _, ok2 := readPos(fMeta); ok2 && fApp > hw {
 			hw = fApp
 		}
@@ -927,11 +1051,21 @@ func (cl *cluster) awaitCaughtUp(quiet bool) bool {
 	}
 	deadline := cl.sim.Elapsed() + limit
 	var la, fa int64
+	ta3 := int64(-2)
 	for cl.sim.Elapsed() < deadline {
 		var ok1, ok2 bool
 		la, _, ok1 = readPos(lMeta)
 		fa, _, ok2 = readPos(fMeta)
-		if ok1 && ok2 && la == fa {
+		third := true
+		if cl.third == 2 {
+			ta, _, ok3 := readPos(filepath.Join(partDir(cl.nodes[thirdID].dir), "meta", "0.bat"))
+			if !ok3 {
+				ta = -1
+			}
+			third = ok1 && ta == la
+			ta3 = ta
+		}
+		if ok1 && ok2 && la == fa && third {
 			return true
 		}
 		if !ok1 {
@@ -952,6 +1086,13 @@ func (cl *cluster) awaitCaughtUp(quiet bool) bool {
 	state := "?"
 	if r, ok := rs[followerID]; ok {
 		state = fmt.Sprintf("replica=%d ack=%d append=%d state=%v live=%v tasks=%s", r.ReplicaIndex(), r.AckIndex(), r.AppendIndex(), r.State(), cl.live, cl.sim.TaskDump())
+	}
+	if fa == la && cl.third == 2 {
+		if r, ok := rs[thirdID]; ok {
+			state = fmt.Sprintf("replica=%d ack=%d append=%d state=%v", r.ReplicaIndex(), r.AckIndex(), r.AppendIndex(), r.State())
+		}
+		c.Violate("C08/no-catch-up", "120 simulated seconds after the last fault the second follower has appended up to %d, the leader up to %d (leader's replicator for it: %s)", ta3, la, state)
+		return false
 	}
 	c.Violate("C08/no-catch-up", "120 simulated seconds after the last fault the follower has appended up to %d, the leader up to %d (leader's replicator: %s)", fa, la, state)
 	return false
